@@ -5,6 +5,7 @@ import (
 	"go/constant"
 	"go/token"
 	"go/types"
+	"reflect"
 	"sort"
 	"strings"
 
@@ -1204,6 +1205,22 @@ func ruleAppResponseCacheKey(c *Ctx, p *Prog, rule string) {
 		}
 		c.Check(rule, "response-cache:"+site.name+"-only-for-GET", p, site.in.Pos(), okg, "the cache "+site.name+" happens only for GET requests", "the cache "+site.name+" is not guarded by r.Method == GET: the answer to a POST/PUT is served from (or stored into) the cache")
 	}
+	// only a plain 200 is stored: the key is (user, URL), so the answer to a conditional or range
+	// request (304, 206) — which depends on request headers the key does not contain — must never
+	// become the answer to the next request for that URL
+	ok200 := false
+	for _, g := range GuardConds(wr) {
+		if bo, ok := g.Cond.(*ssa.BinOp); ok && ((bo.Op == token.EQL && g.Truth) || (bo.Op == token.NEQ && !g.Truth)) {
+			for _, pair := range [][2]ssa.Value{{bo.X, bo.Y}, {bo.Y, bo.X}} {
+				if n, isC := ConstInt(pair[1]); isC && n == 200 {
+					if _, f, isF := FieldLoad(pair[0]); isF && f == "StatusCode" {
+						ok200 = true
+					}
+				}
+			}
+		}
+	}
+	c.Check(rule, "response-cache:store-only-status-200", p, wr.Pos(), ok200, "a response is stored in the cache only under response.StatusCode == 200", "the cache store is not guarded by response.StatusCode == 200: a 206 (the answer to one client's Range request) or another status that depends on request headers is stored under the header-less (user, URL) key and served to later requests for that URL — those clients receive the response to another request")
 }
 
 // ruleLoopSharedCapture: a goroutine started inside a loop must not capture a
@@ -1847,4 +1864,152 @@ func ruleNoMutationOfHTTPDefaults(c *Ctx, p *Prog, rule string) {
 		})
 	}
 	c.Check(rule, "http-defaults:not-reconfigured", p, 0, bad == "" && n > 0, fmt.Sprintf("%d stores in module code inspected: none writes http.DefaultTransport/DefaultClient/DefaultServeMux or a field of them", n), bad+": the backend-facing reverse proxy (and every other user of the default) inherits the setting — a response-header timeout meant for health checks turns slow backend responses into the proxy's own 502")
+}
+
+// ruleReplayedRequestHasNoPeer: the request the agent replays to the backend was parsed off a
+// byte stream, so it has no RemoteAddr — and must not be given one. httputil.ReverseProxy
+// rewrites X-Forwarded-For whenever RemoteAddr parses as host:port: it joins the client's
+// own values into one field and appends the peer. Setting the field "for the logs" alters a
+// header every backend behind the agent receives.
+func ruleReplayedRequestHasNoPeer(c *Ctx, p *Prog, rule string) {
+	bad := ""
+	n := 0
+	for _, fn := range p.AllFuncs {
+		if !p.IsModFunc(fn) {
+			continue
+		}
+		if pk := fnPkg(fn); pk == nil || !(Rel(pk.Pkg.Path()) == "agent" || strings.HasPrefix(Rel(pk.Pkg.Path()), "agent/")) {
+			continue
+		}
+		n++
+		EachInstrRaw(fn, func(i ssa.Instruction) {
+			if st, ok := i.(*ssa.Store); ok {
+				if base, fld, okf := FieldAddrOf(st.Addr); okf && fld == "RemoteAddr" && NamedType(base.Type()) == "net/http.Request" {
+					bad = FuncName(fn) + " sets RemoteAddr at " + p.Pos(st.Pos())
+				}
+			}
+		})
+	}
+	c.Check(rule, "agent:replayed-request-has-no-peer-address", p, 0, bad == "" && n > 0, fmt.Sprintf("no agent code sets RemoteAddr of a request (%d functions inspected): the reverse proxy leaves the client's X-Forwarded-For fields as they came", n), bad+": the reverse proxy towards the backend then rewrites X-Forwarded-For (joins the client's values into one field and appends this address) — the backend no longer sees the header fields the client sent")
+}
+
+// ruleBackendTransportAcceptsAnyResponse: the transport the agent uses towards the backend
+// keeps net/http's defaults for what it accepts: no cap on the size of the response header
+// block, no deadline for the response header, no cap on connections per host. Any of them
+// turns a backend response the property covers (a large Set-Cookie/CSP header block, a slow
+// first byte) into a 502 of the agent's own making.
+func ruleBackendTransportAcceptsAnyResponse(c *Ctx, p *Prog, rule string) {
+	hp := c.need(p, rule, "agent.hostProxy")
+	if hp == nil {
+		return
+	}
+	deny := map[string]bool{"MaxResponseHeaderBytes": true, "ResponseHeaderTimeout": true, "MaxConnsPerHost": true, "MaxHeaderListSize": true, "MaxReadFrameSize": true}
+	bad := ""
+	n := 0
+	for _, fn := range p.AllFuncsIn("agent") {
+		EachInstrRaw(fn, func(i ssa.Instruction) {
+			st, ok := i.(*ssa.Store)
+			if !ok {
+				return
+			}
+			base, f, ok := FieldAddrOf(st.Addr)
+			if !ok {
+				return
+			}
+			switch NamedType(base.Type()) {
+			case "net/http.Transport", "golang.org/x/net/http2.Transport":
+			default:
+				return
+			}
+			n++
+			if deny[f] {
+				if cv, isC := st.Val.(*ssa.Const); isC && cv.Value != nil && cv.Value.ExactString() == "0" {
+					return
+				}
+				bad = f + " is set in " + FuncName(fn) + " at " + p.Pos(st.Pos())
+			}
+		})
+	}
+	c.Check(rule, "agent:backend-transport-accepts-any-response", p, hp.Pos(), bad == "", fmt.Sprintf("no transport built by the agent limits the response header size, the time to the response header or the connections per host (%d transport field(s) inspected)", n), bad+": backend responses with a larger header block (or a slower first byte, or beyond the connection cap) are answered by the agent with a 502 of its own — the client does not receive the backend's status, headers and body")
+}
+
+// ruleShimBodiesReadWhole: the shim endpoints read the body of a request without a cap of
+// their own. The body of a `data` request is a batch of messages of any size the page
+// produced (binary frames are base64 in JSON); a MaxBytesReader/LimitReader "like the one on
+// the pending list" truncates the JSON of a large batch, which is then refused as a whole —
+// messages the client sent are never delivered.
+func ruleShimBodiesReadWhole(c *Ctx, p *Prog, rule string) {
+	bad := ""
+	n := 0
+	for _, fn := range p.AllFuncsIn("agent/websockets") {
+		n++
+		for _, call := range Calls(fn, "net/http.MaxBytesReader", "io.LimitReader", "io.CopyN", "io.ReadFull", "io.ReadAtLeast") {
+			bad = CalleeName(CallOf(call)) + " in " + FuncName(fn) + " at " + p.Pos(call.Pos())
+		}
+		EachInstrRaw(fn, func(i ssa.Instruction) {
+			if al, ok := i.(*ssa.Alloc); ok && NamedType(al.Type()) == "io.LimitedReader" {
+				bad = "an io.LimitedReader in " + FuncName(fn) + " at " + p.Pos(al.Pos())
+			}
+		})
+	}
+	c.Check(rule, "shim:request-bodies-read-whole", p, 0, bad == "" && n > 0, fmt.Sprintf("no size cap (MaxBytesReader, LimitReader, …) on what the shim endpoints read (%d functions of agent/websockets inspected)", n), "the websocket shim reads through "+bad+": a batch of client messages larger than the cap is cut, its JSON no longer parses and the whole batch is refused — the messages are lost although the client sent them")
+}
+
+// ruleStoredEntityLoadable: a struct that is written to and loaded from the datastore keeps
+// every property it has ever been stored with: each field of the pinned definition is still
+// there under its own name and is not hidden from (or renamed for) the datastore codec by a
+// struct tag. Entities written by the deployed version carry those properties; a field the
+// codec no longer finds makes Get/GetAll fail with ErrFieldMismatch for every such entity.
+func ruleStoredEntityLoadable(c *Ctx, p *Prog, rule string, entities ...string) {
+	pn := pinnedTable()
+	for _, ent := range entities {
+		k := strings.LastIndex(ent, ".")
+		rel, name := ent[:k], ent[k+1:]
+		key := "entity:" + ent + ":stored-properties-still-load"
+		pk := p.ModPkgs[ModPath+"/"+rel]
+		if pk == nil || pn.Pkgs == nil || pn.Pkgs[rel] == nil {
+			c.Unk(rule, key, p, 0, "package "+rel+" not loaded")
+			continue
+		}
+		fp, ok := pn.Pkgs[rel].Types[name]
+		if !ok {
+			c.Unk(rule, key, p, 0, "no pinned definition of "+ent)
+			continue
+		}
+		var st *types.Struct
+		var pos token.Pos
+		for _, n := range pk.Types.Scope().Names() {
+			if tn, isT := pk.Types.Scope().Lookup(n).(*types.TypeName); isT && objName(tn) == name {
+				st, _ = tn.Type().Underlying().(*types.Struct)
+				pos = tn.Pos()
+			}
+		}
+		if st == nil {
+			c.Unk(rule, key, p, 0, "type "+ent+" not found (renamed or removed)")
+			continue
+		}
+		bad := ""
+		for _, f := range fp.Fields {
+			fname := f[:strings.Index(f, " ")]
+			found := false
+			for i := 0; i < st.NumFields(); i++ {
+				if st.Field(i).Name() != fname {
+					continue
+				}
+				found = true
+				tag := reflect.StructTag(st.Tag(i)).Get("datastore")
+				prop := tag
+				if j := strings.Index(tag, ","); j >= 0 {
+					prop = tag[:j]
+				}
+				if prop == "-" || (prop != "" && prop != fname) {
+					bad = fmt.Sprintf("field %s carries the tag datastore:%q", fname, tag)
+				}
+			}
+			if !found {
+				bad = "field " + fname + " no longer exists under that name"
+			}
+		}
+		c.Check(rule, key, p, pos, bad == "", fmt.Sprintf("all %d properties entities of type %s were ever stored with are still fields the datastore codec loads", len(fp.Fields), ent), ent+": "+bad+": entities written before this change still carry that property, so loading any of them fails with ErrFieldMismatch — a query over the backends of a user then fails as a whole and every request of that user is answered 404")
+	}
 }
